@@ -40,6 +40,7 @@ type gen struct {
 	wasWild   bool
 	stored    *storedRec // what the store may still hold for this key (carried across generations)
 	ambClient int
+	ambStrict bool // the ambiguity arose well inside the period with the marker in a reliable store: only a pass is right
 }
 
 // storedRec: the record written when a fetch ended (response or hit-for-pass marker)
@@ -63,6 +64,9 @@ type role struct {
 	fSerial    int
 	fBodyLen   int
 	fStatus    int
+	fT         int   // lifetime of the fetched response
+	fT0        int64 // ms: when that fetch ended
+	fNoUpAge   bool  // the upstream sent no Age of its own
 }
 
 var traceOn = os.Getenv("VERIF_TRACE") != ""
@@ -81,6 +85,7 @@ type model struct {
 	upsSeen      map[int]bool
 	stats        modelStats
 	hfpD         int
+	strictHFP    bool // C07 with a reliable store: a marker dropped from memory inside the period must come back from the store
 	brokenSerial map[int]bool // upstream exchanges whose body was a deliberately broken gzip stream
 	storeSeen    int
 	passive      bool // only record the trace (C03 has its own oracle)
@@ -93,7 +98,7 @@ type modelStats struct {
 	BoundaryCases, FailedFetches, WaitersOfFailed, Timeouts               int
 	HFPBursts, HFPProbes, ReloadHits, ReloadRefetch, FaultsHit            int
 	PurgeDuringFetch, PurgeOfFresh, RequestAfterPurge                     int
-	ExpiredRefetch, MaxOverlap, StaleBoundary, Aborted, AmbiguousResolved int
+	ExpiredRefetch, MaxOverlap, StaleBoundary, Aborted, AmbiguousResolved, WaiterAgeChecked, MarkerReloads int
 	WildGens                                                              int
 }
 
@@ -113,6 +118,7 @@ func (m *model) viol(property, oracle, format string, args ...interface{}) {
 func (m *model) begin(w *world, sc Scenario) {
 	m.w, m.sc = w, sc
 	m.hfpD = sc.Cfg.HFP
+	m.strictHFP = m.prop == "C07" && sc.Cfg.Store == "mem"
 	if m.hfpD <= 0 {
 		m.hfpD = 300
 	}
@@ -295,7 +301,7 @@ func (m *model) onReq(opIdx int, c *clientRec, snap snapshot) {
 		if f, called := m.storeFault("get", string(keyBytes(k))); called && f != "" {
 			m.stats.FaultsHit++
 			switch {
-			case f == "notfound" || f == "error" || strings.HasPrefix(f, "trunc:"):
+			case f == "notfound" || f == "error" || strings.HasPrefix(f, "trunc:") || strings.HasPrefix(f, "badfilter:"):
 				missNow = true // a bad or missing record is a miss (the store itself may still hold the record)
 			default:
 				g.state, g.wasWild = "wild", true
@@ -425,7 +431,7 @@ func (m *model) onReq(opIdx int, c *clientRec, snap snapshot) {
 		default:
 			m.stats.BoundaryCases++
 			if st == "pending" {
-				g.state, g.ambClient = "amb", c.ID
+				g.state, g.ambClient, g.ambStrict = "amb", c.ID, false
 				m.roles[c.ID] = &role{kind: "free", g: g}
 			} else {
 				m.viol("C07", "hfp-boundary", "op %d: request %d at the end of the hit-for-pass period neither passed nor probed (state %s)", opIdx, c.ID, st)
@@ -438,6 +444,10 @@ func (m *model) onReq(opIdx int, c *clientRec, snap snapshot) {
 		switch st {
 		case "blocked", "parked:get.registered":
 			first := g.ambClient
+			if g.ambStrict {
+				m.viol("C07", "marker-not-restored", "op %d: request %d is queued behind request %d, which arrived well inside the %ds hit-for-pass period of a key whose marker had left memory but is in the store: the marker was not restored, the key is probed and requests queue", opIdx, c.ID, first, g.D)
+				g.ambStrict = false
+			}
 			g.state, g.reason = "unknown", "lapsed"
 			if fc := m.clientByID(first); fc != nil {
 				m.becomeFetcher(g, fc)
@@ -450,6 +460,10 @@ func (m *model) onReq(opIdx int, c *clientRec, snap snapshot) {
 			// the earlier one was a pass (else this one would wait for it)
 			m.roles[g.ambClient] = &role{kind: "pass", g: g}
 			m.stats.AmbiguousResolved++
+			if g.ambStrict {
+				m.stats.MarkerReloads++
+			}
+			g.ambStrict = false
 			switch {
 			case e >= float64(g.D+1):
 				m.stats.HFPProbes++
@@ -508,6 +522,7 @@ func (m *model) onReqMaybeStored(opIdx int, c *clientRec, g *gen, st string, now
 			// reloaded marker (pass) or probe: undecided
 			g.D, g.t0 = p.D, p.t0
 			g.state, g.ambClient = "amb", c.ID
+			g.ambStrict = m.strictHFP && secs(now-p.t0) < float64(p.D-1)
 			g.stored = p
 			m.roles[c.ID] = &role{kind: "free", g: g}
 			return
@@ -628,13 +643,21 @@ func (m *model) onUpstreamEnd(opIdx int, u *upReq, snap snapshot) {
 // resolve a pass-or-probe ambiguity from the finished request's own label
 func (m *model) resolveAmb(g *gen, c *clientRec, u *upReq, snap snapshot) {
 	m.stats.AmbiguousResolved++
+	strict := g.ambStrict
+	g.ambStrict = false
 	if !c.Done && !c.Aborted {
 		g.state = "wild"
 		return
 	}
 	if c.XStatus == "hitForPass" {
 		g.state = "hfp"
+		if strict {
+			m.stats.MarkerReloads++
+		}
 		return
+	}
+	if strict && c.XStatus == "fetching" {
+		m.viol("C07", "marker-not-restored", "request %d arrived well inside the %ds hit-for-pass period of a key whose marker had left memory but is in the store, and was a probe (X-Status fetching) instead of a pass", c.ID, g.D)
 	}
 	k := m.keyOf(c)
 	ok, L := false, 0
@@ -690,6 +713,7 @@ func (m *model) wakeWaiters(opIdx int, g *gen, snap snapshot) {
 		}
 		r.kind = "woken"
 		r.fCacheable, r.fSerial, r.fBodyLen, r.fStatus = g.cacheable, g.serial, g.bodyLen, g.status
+		r.fT, r.fT0, r.fNoUpAge = g.T, g.t0, g.upAge == nil
 		if st == "parked:get.woken" {
 			continue // judged when released
 		}
@@ -725,6 +749,18 @@ func (m *model) judgeWoken(opIdx int, id int, g *gen, st string, snap snapshot) 
 				m.checkHeaders(opIdx, c, r.fSerial)
 				if c.Code != r.fStatus {
 					m.viol("C05", "status", "op %d: waiter %d has status %d, the fetch it waited for answered %d", opIdx, id, c.Code, r.fStatus)
+				}
+				// C04: the Age of a response handed over by the fetch that just ended (same
+				// instant on the virtual clock) is that of a response obtained now
+				if r.fNoUpAge && c.EndMs == r.fT0 {
+					age := 0
+					if c.AgeHdr != "" {
+						age, _ = strconv.Atoi(c.AgeHdr)
+					}
+					if age > r.fT || age > 1 {
+						m.viol("C04", "age", "op %d: request %d was answered from the fetch #%d that ended at this very instant but carries Age %q (lifetime %d)", opIdx, id, r.fSerial, c.AgeHdr, r.fT)
+					}
+					m.stats.WaiterAgeChecked++
 				}
 			}
 		case "pending":
